@@ -286,7 +286,7 @@ class Sim:
                   lost_worker_timeout=p.get('T', 3.0),
                   max_restarts=p.get('max_restarts'),
                   max_restart_freq=p.get('max_restart_freq', 1),
-                  threads=False, putlocks=p.get('putlocks', False),
+                  threads=False, putlocks=(p.get('putlocks') is True),
                   on_process_up=self._on_up, on_process_down=self._on_down,
                   on_timeout_set=self._on_tset, on_timeout_cancel=self._on_tcancel)
         self.pool = SimPool(**kw)
@@ -676,6 +676,10 @@ class Sim:
         if rng.random() < 0.5:
             kw['lost_worker_timeout'] = rng.choice([0.5, 1.0, 2.5, 3.0, 6.0])
         slot = bool(p.get('putlocks'))
+        if p.get('putlocks') == 'percall':
+            # a pool built without put-locks whose callers ask for a slot per call
+            kw['waitforslot'] = True
+            self.stat('submit_waitforslot_per_call')
         if slot:
             v, _b = self.sem_value()
             if v <= 0:
